@@ -330,6 +330,163 @@ func (g *gen) randomIngest() Case {
 }
 
 // ---------------------------------------------------------------------------
+// look-alike values: successive updates of ONE leaf with values of the same
+// arm that differ slightly (what value.Equal and proto.Equal have to tell apart)
+
+func strs(ss ...string) []TV {
+	out := make([]TV, len(ss))
+	for i, s := range ss {
+		out[i] = TV{K: "str", S: s}
+	}
+	return out
+}
+
+var f64nan = uint64(0x7ff8000000000001)
+
+// lookalikePool: per arm a few values that are prefixes of each other, of the
+// same length, empty, or equal up to representation
+func lookalikePool() []TV {
+	return []TV{
+		{K: "nil"}, {K: "unset"},
+		{K: "leaflist"}, {K: "leaflistnil"},
+		{K: "leaflist", L: strs("red")}, {K: "leaflist", L: strs("red", "green")},
+		{K: "leaflist", L: strs("red", "green", "blue")}, {K: "leaflist", L: strs("red", "blue")},
+		{K: "leaflist", L: []TV{{K: "int", I: 1}, {K: "int", I: 2}}},
+		{K: "leaflist", L: []TV{{K: "leaflist", L: strs("red")}, {K: "double", U: f64one}}},
+		{K: "leaflist", L: []TV{{K: "leaflist", L: strs("red")}}},
+		{K: "decimal", I: 314, P: 2}, {K: "decimal", I: 314, P: 3}, {K: "decimal"}, {K: "decimalnil"},
+		{K: "double", U: f64one}, {K: "double", U: f64two}, {K: "double", U: 0}, {K: "double", U: 1 << 63}, {K: "double", U: f64nan},
+		{K: "float", U: uint64(math.Float32bits(1.5))}, {K: "float", U: 0}, {K: "float", U: 1 << 31},
+		{K: "str", S: "ab"}, {K: "str", S: "abc"}, {K: "str", S: ""},
+		{K: "bytes", S: "ab"}, {K: "bytes", S: "abc"}, {K: "bytes", S: ""},
+		{K: "ascii", S: "ab"}, {K: "proto", S: "ab"}, {K: "any"},
+		{K: "json", S: `{"a":1}`}, {K: "json", S: `{"a":2}`}, {K: "jsonietf", S: `{"a":1}`},
+		{K: "int", I: 1}, {K: "int", I: 2}, {K: "uint", U: 1}, {K: "uint", U: 2},
+		{K: "bool", B: true}, {K: "bool", B: false},
+	}
+}
+
+// pairsIngest: every ordered pair (v, w) of the look-alike pool is written to
+// one leaf, v first; four pairs (four leaves) per cache.  Timestamps
+// increasing or equal, event-driven emulation on or off, by position.
+func pairsIngest(emit func(Case)) {
+	pool := lookalikePool()
+	targets := []string{"t1", "t2"}
+	leaves := [][]Elem{names("a", "b"), names("c"), names("a", "d"), names("e", "f", "g")}
+	var ops []Op
+	k, cases := 0, 0
+	flush := func() {
+		if len(ops) == 0 {
+			return
+		}
+		emit(Case{Family: "ingest-pairs", Kind: "ingest", Targets: targets, NoEvent: cases%2 == 1, Ops: ops})
+		ops, k = nil, 0
+		cases++
+	}
+	for i, v := range pool {
+		for j, w := range pool {
+			ph := &GPath{Elems: leaves[k]}
+			ts2 := int64(2)
+			if (i+j)%3 == 0 {
+				ts2 = 1 // equal timestamps: different content replaces, equal content is stale
+			}
+			ops = append(ops,
+				Op{K: "msg", N: &Noti{TS: 1, Prefix: &GPath{Target: "t1"}, Upd: []Upd{{Path: ph, Val: v}}}},
+				Op{K: "msg", N: &Noti{TS: ts2, Prefix: &GPath{Target: "t1"}, Upd: []Upd{{Path: ph, Val: w}}}})
+			k++
+			if k == len(leaves) {
+				flush()
+			}
+		}
+	}
+	flush()
+}
+
+// lookalikeIngest: a random walk through the pool on one or two leaves,
+// biased towards staying inside an arm; single, multi and atomic messages.
+func (g *gen) lookalikeIngest() Case {
+	r := g.r
+	pool := lookalikePool()
+	targets := []string{"t1", "t2"}
+	c := Case{Family: "ingest-lookalike", Kind: "ingest", Targets: targets, NoEvent: r.Chance(1, 2)}
+	paths := []*GPath{{Elems: names("a", "b")}, {Elems: names("c")}}
+	if r.Chance(1, 6) {
+		paths[1] = &GPath{Elems: names("meta", "x")}
+	}
+	cur := []int{r.Intn(len(pool)), r.Intn(len(pool))}
+	ts := int64(1)
+	k := 3 + r.Intn(6)
+	for i := 0; i < k; i++ {
+		which := r.Pick(3, 1)
+		switch r.Pick(5, 3, 1) {
+		case 0: // a neighbour in the pool (same arm, mostly)
+			cur[which] += r.Intn(5) - 2
+			if cur[which] < 0 {
+				cur[which] = 0
+			}
+			if cur[which] >= len(pool) {
+				cur[which] = len(pool) - 1
+			}
+		case 1:
+			cur[which] = r.Intn(len(pool))
+		}
+		switch r.Pick(5, 3, 1) {
+		case 0:
+			ts++
+		case 2:
+			ts--
+		}
+		n := &Noti{TS: ts, Prefix: &GPath{Target: "t1"}, Upd: []Upd{{Path: paths[which], Val: pool[cur[which]]}}}
+		if r.Chance(1, 6) {
+			n.Upd = append(n.Upd, Upd{Path: paths[1-which], Val: pool[cur[1-which]]})
+		}
+		if r.Chance(1, 10) {
+			n.Atomic = true
+			n.Prefix = &GPath{Target: "t1", Elems: paths[which].Elems}
+		}
+		c.Ops = append(c.Ops, Op{K: "msg", N: n})
+	}
+	if r.Chance(1, 2) {
+		c.Ops = append(c.Ops, Op{K: "refresh"})
+	}
+	return c
+}
+
+// lookalikeResps: the same walk as a response stream (one leaf updated over
+// and over, a sync in the middle)
+func (g *gen) lookalikeResps() []Op {
+	r := g.r
+	pool := lookalikePool()
+	cur := r.Intn(len(pool))
+	k := 3 + r.Intn(5)
+	syncAt := r.Intn(k)
+	var ops []Op
+	for i := 0; i < k; i++ {
+		if i == syncAt {
+			ops = append(ops, Op{K: "resp", R: &Resp{K: "sync"}})
+		}
+		if r.Chance(1, 3) {
+			cur = r.Intn(len(pool))
+		} else {
+			cur += r.Intn(5) - 2
+			if cur < 0 {
+				cur = 0
+			}
+			if cur >= len(pool) {
+				cur = len(pool) - 1
+			}
+		}
+		ph := &GPath{Elems: names("a", "b")}
+		if r.Chance(1, 8) {
+			ph = &GPath{Elems: names("a")}
+		}
+		ops = append(ops, Op{K: "resp", R: &Resp{K: "update", N: &Noti{TS: int64(1 + i), Prefix: &GPath{Target: "t"},
+			Upd: []Upd{{Path: ph, Val: pool[cur]}}}}})
+	}
+	return ops
+}
+
+// ---------------------------------------------------------------------------
 // Subscribe requests
 
 func gridSub(emit func(Case), thorough bool) {
